@@ -3,5 +3,5 @@ From Coq Require Import Extraction ExtrOcamlBasic.
 From XV Require Import C08.Spec08 C08.Model08 C08.ModelDfa08.
 Extraction Language OCaml.
 Extraction "../ocaml/C08/gen_c08.ml"
-  pmatch wildcard_allows constraint_of attrs_valid defaulted m_attrs_valid m_defaulted m_xsitype xsitype_okb build_dfa dfa_validate d_ok m_subst subst_okb m_wexpr m_wexpr_faithful wexpr_allows
+  pmatch wildcard_allows constraint_of attrs_valid defaulted m_attrs_valid m_defaulted m_xsitype xsitype_okb build_dfa dfa_validate d_ok m_subst subst_okb m_wexpr m_wexpr_faithful wexpr_allows m_att_derivation attr_restriction_ok
   model_valid content_tree use_repeating any_match all_validate.
